@@ -35,7 +35,7 @@ func (tokenDrv) Base() chain.M {
 }
 
 func (tokenDrv) Ops() []string {
-	return []string{"tk_issue", "tk_mint", "tk_issue2", "tk_mint2", "tk_edit", "tk_burn", "tk_deploy", "tk_toerc20", "tk_transfer"}
+	return []string{"tk_issue", "tk_mint", "tk_issue2", "tk_mint2", "tk_edit", "tk_burn", "tk_deploy", "tk_toerc20", "tk_transfer", "tk_issue3"}
 }
 func (tokenDrv) Mid() int { return 2 }
 
@@ -106,6 +106,9 @@ func (tokenDrv) RunOp(e *env, op string) opRes {
 			InitialSupply: 1000, MaxSupply: 1_000_000, Mintable: true, Owner: u1})
 	case "tk_issue2":
 		return e.tx("u1", &v1.MsgIssueToken{Symbol: "doggy", Name: "Doggy", Scale: 6, MinUnit: "udoggy",
+			InitialSupply: 1000, MaxSupply: 1_000_000, Mintable: true, Owner: u1})
+	case "tk_issue3": // three-letter symbol: the fee factor is 1, the whole base fee is charged
+		return e.tx("u1", &v1.MsgIssueToken{Symbol: "cat", Name: "Cat", Scale: 0, MinUnit: "cat",
 			InitialSupply: 1000, MaxSupply: 1_000_000, Mintable: true, Owner: u1})
 	case "tk_mint", "tk_mint2":
 		return e.tx("u1", &v1.MsgMintToken{Coin: sdk.NewInt64Coin("kitty", 100), Receiver: u1, Owner: u1})
